@@ -13,7 +13,7 @@ So the boundary of the class is checked from both sides.
 namespace RsslVerif.Thm.C12
 open RsslVerif.Model.Macro RsslVerif.Spec.CPreMacro RsslVerif.Lemmas.MacroEval RsslVerif.Lemmas.SpecExpand
 open RsslVerif.Lemmas.MacroTame RsslVerif.Lemmas.MacroTameSpec RsslVerif.Lemmas.MacroTameRun
-open RsslVerif.Model.MacroTame
+open RsslVerif.Model.MacroTame RsslVerif.Lemmas.MacroTameP RsslVerif.Lemmas.MacroTamePSpec RsslVerif.Lemmas.MacroHang
 
 /-- located tokens -/
 abbrev loc (ks : List Tok) : List PTok := ks.map (⟨·, true⟩)
@@ -169,6 +169,49 @@ theorem differs_empty_argument_next_to_paste :
   exact differs_of_eval defs toks 12 12 (.ok (loc [.id "PQ"])) [.id "P", .id "Q"] (by decide) (by decide +kernel)
     (by intro out ho; cases ho; decide)
 
+
+
+/-- an input on which the two differ has no tame derivation with `##` either -/
+theorem not_tameP_of_not_agree (defs : List Macro) (toks : List PTok) (hwf : ∀ m ∈ defs, WFMacroP m)
+    (hnc : NoConcat toks) (h : ¬ Agree defs toks) : ¬ ∃ out, TameP (allEnabled defs) toks out := by
+  rintro ⟨out, hT⟩
+  obtain ⟨h1, fuel, r, h2, h3⟩ := expand_refines_spec_with_paste defs toks out hwf hnc hT
+  exact h ⟨out, fuel, r, h1, h2, h3⟩
+
+/-- **The seven witnesses lie outside the class with `##` as well** (`TameP`, the class of
+`expand_refines_spec_with_paste`) -- in particular `F()` for `#define F(X) P ## X Q`: an empty argument next to
+`##`. -/
+theorem differs_outside_class_with_paste :
+    (¬ ∃ out, TameP (allEnabled [⟨"F", true, 1, loc [.arg 0]⟩])
+      (loc [.id "F", .endline, .lparen, .int "1", .rparen]) out) ∧
+    (¬ ∃ out, TameP (allEnabled [⟨"K", true, 1, loc [.int "3"]⟩, ⟨"G", true, 1, loc [.arg 0]⟩])
+      (loc [.id "K", .lparen, .id "G", .lparen, .int "1", .comma, .int "2", .rparen, .rparen]) out) ∧
+    (¬ ∃ out, TameP (allEnabled [⟨"B", false, 0, loc [.id "B", .ws, .int "0"]⟩, ⟨"ID", true, 1, loc [.arg 0]⟩])
+      (loc [.id "ID", .lparen, .id "B", .rparen]) out) ∧
+    (¬ ∃ out, TameP (allEnabled [⟨"A", false, 0, loc [.id "B", .lparen, .id "A", .rparen]⟩,
+        ⟨"B", true, 1, loc [.arg 0, .ws, .id "B"]⟩]) (loc [.id "A", .lparen, .int "1", .rparen]) out) ∧
+    (¬ ∃ out, TameP (allEnabled [⟨"F", true, 1, loc [.arg 0]⟩,
+        ⟨"H", true, 1, loc [.id "F", .lparen, .arg 0, .rparen]⟩])
+      (loc [.id "H", .lparen, .id "F", .rparen, .lparen, .int "1", .rparen]) out) ∧
+    (¬ ∃ out, TameP (allEnabled [⟨"E", false, 0, []⟩, ⟨"F", true, 1, loc [.arg 0]⟩,
+        ⟨"A", false, 0, loc [.id "F", .ws, .id "E"]⟩]) (loc [.id "A", .lparen, .int "1", .rparen]) out) ∧
+    (¬ ∃ out, TameP (allEnabled [⟨"F", true, 1, loc [.id "P", .ws, .concat, .ws, .arg 0, .ws, .id "Q"]⟩])
+      (loc [.id "F", .lparen, .rparen]) out) := by
+  refine ⟨?_, ?_, ?_, ?_, ?_, ?_, ?_⟩
+  · exact not_tameP_of_not_agree _ _ (fun m hm => wfMacroP_of_wfPB m (by revert m; decide))
+      (by unfold NoConcat; decide) differs_line_end_before_parenthesis.2.2.1
+  · exact not_tameP_of_not_agree _ _ (fun m hm => wfMacroP_of_wfPB m (by revert m; decide))
+      (by unfold NoConcat; decide) differs_unused_argument_expanded.2.2.1
+  · exact not_tameP_of_not_agree _ _ (fun m hm => wfMacroP_of_wfPB m (by revert m; decide))
+      (by unfold NoConcat; decide) differs_argument_repainted.2.2.1
+  · exact not_tameP_of_not_agree _ _ (fun m hm => wfMacroP_of_wfPB m (by revert m; decide))
+      (by unfold NoConcat; decide) differs_painted_function_name_reinvoked.2.2.1
+  · exact not_tameP_of_not_agree _ _ (fun m hm => wfMacroP_of_wfPB m (by revert m; decide))
+      (by unfold NoConcat; decide) differs_painted_function_name_reinvoked_acyclic.2.2.1
+  · exact not_tameP_of_not_agree _ _ (fun m hm => wfMacroP_of_wfPB m (by revert m; decide))
+      (by unfold NoConcat; decide) differs_function_name_before_vanished_macro.2.2.1
+  · exact not_tameP_of_not_agree _ _ (fun m hm => wfMacroP_of_wfPB m (by revert m; decide))
+      (by unfold NoConcat; decide) differs_empty_argument_next_to_paste.2.2
 
 theorem agree_of_eval (defs : List Macro) (toks out : List PTok) (n fuel : Nat) (ks : List Tok)
     (hm : applyLoopF n (allEnabled defs) toks SearchPos.start = some (.ok out))
